@@ -529,6 +529,15 @@ func (e *MetaCDC) Create(req *request.CreateRequest) (resp *request.CreateRespon
 		return nil
 	}
 
+	// decode the whole request before anything is written to the meta store
+	var rpcDecodePosition *msgstream.MsgPosition
+	if req.RPCChannelInfo.Position != "" {
+		rpcDecodePosition, err = util.Base64DecodeMsgPosition(req.RPCChannelInfo.Position)
+		if err != nil {
+			return nil, servererror.NewServerError(errors.WithMessage(err, "fail to decode the rpc position data"))
+		}
+	}
+
 	if err := handleCollectionPositions(req.CollectionInfos); err != nil {
 		return nil, err
 	}
@@ -541,11 +550,7 @@ func (e *MetaCDC) Create(req *request.CreateRequest) (resp *request.CreateRespon
 
 	// TODO fubang check the same collection when db is different
 
-	if req.RPCChannelInfo.Position != "" {
-		decodePosition, err := util.Base64DecodeMsgPosition(req.RPCChannelInfo.Position)
-		if err != nil {
-			return nil, servererror.NewServerError(errors.WithMessage(err, "fail to decode the rpc position data"))
-		}
+	if rpcDecodePosition != nil {
 		rpcChannel := e.getRPCChannelName(req.RPCChannelInfo)
 
 		metaPosition := &meta.TaskCollectionPosition{
@@ -556,7 +561,7 @@ func (e *MetaCDC) Create(req *request.CreateRequest) (resp *request.CreateRespon
 				rpcChannel: {
 					DataPair: &commonpb.KeyDataPair{
 						Key:  rpcChannel,
-						Data: decodePosition.MsgID,
+						Data: rpcDecodePosition.MsgID,
 					},
 				},
 			},
